@@ -168,7 +168,7 @@ def run_unit(unit):
     waves = ((0.4861, False), (0.5876, True), (0.6563, False))
     water = S('plane', mat=['ideal', 1.33, 0.0])
     for obj, ft, mf, img in ((LZ.INF, 'angle', p['ang'], None), (p['od'][0], 'object_height', p['h'], None),
-                             (LZ.INF, 'angle', 1e-7, water), (p['od'][1], 'object_height', 1e-6, water)):
+                             (LZ.INF, 'angle', 1e-9, water), (p['od'][1], 'object_height', 1e-9, water)):
         # (3rd/4th: image space immersed in water and a vanishingly small field - the spherical, Petzval and colour
         #  terms do not depend on the field)
         # aperture that fixes the marginal ray whatever the stop position (EPD at infinity, object NA for a finite object)
